@@ -35,10 +35,10 @@ def addOpt : Option Rat → Rat → Option Rat
 
 /-- The key function of `front.sort(key=lambda x: x.costs_signed[dim])` evaluated on every
 member (`none` = `IndexError`: a cost vector shorter than that of `front[0]`). -/
-def peel : List CEnt → Option (List (Rat × CEnt))
+def crowdPeel : List CEnt → Option (List (Rat × CEnt))
   | [] => some []
   | e :: l =>
-    match e.rest, peel l with
+    match e.rest, crowdPeel l with
     | k :: r, some t => some ((k, { e with rest := r }) :: t)
     | _, _ => none
 
@@ -63,7 +63,7 @@ def keyLe (a b : Rat × CEnt) : Bool := decide (a.1 ≤ b.1)
 def crowdLoop : Nat → List CEnt → Option (List CEnt)
   | 0, l => some l
   | m + 1, l =>
-    match peel l with
+    match crowdPeel l with
     | none => none
     | some p => crowdLoop m (sweep (p.mergeSort keyLe))
 
